@@ -119,7 +119,8 @@ SDMX_REFINE_FACTOR = 2.5
 # ---------------------------------------------------------------------------------------------------------------
 # calibrated bounds.  vlib/c02_bounds.py holds, per oracle name, the LARGEST value observed on the unchanged tree in the
 # calibration runs (C02_CALIB=1 ./check C02 --no-evidence; seeds 0-4 quick, 0-1 thorough); the bound is SAFETY x that
-# value (floored).  Regenerate the table with the same runs when the case generator changes.
+# value (floored).  Regenerate the table with `python -m vlib.c02_calib quick:0 ... thorough:1` (on the unchanged tree)
+# when the case generator changes.
 SAFETY = 3.0
 # Floors.  The truncation error of one and the same oracle varies by 10-30x between molecules / parameter draws (heavy
 # tail: at a seed outside the calibration set one of ~900 oracles exceeded 9x its calibrated maximum, 2.2e-3 against
@@ -670,7 +671,10 @@ def _run_nldf_paths(case, rec, rng):
                     rms, worst, sc = _stats(F[b][s, k], F[a][s, k])
                     grp = key.split("|")[0] if cls != "same" else "*"
                     det = {"feature": label, "spin": s, "rms_rel": rms, "worst": worst}
-                    fl = {"same": 1e-7, "interp": 1e-4}.get(cls, FLOOR)
+                    # two independent truncations enter a plan / ladder / inner-grid comparison: floor 3 x (resp. 2 x)
+                    # that of a single definition oracle (at a seed outside the calibration set etb-vs-zexp[spline]
+                    # reached 6e-3 where the calibrated maximum was 1e-3)
+                    fl = {"same": 1e-7, "interp": 1e-4, "plan": 3 * FLOOR, "definition": 2 * FLOOR}[cls]
                     _tcheck(rec, _nm("path_rms[%s|%s]" % (pname, grp)), rms, "nldf:%s" % pname, det, floor=fl)
                     _tcheck(rec, _nm("path_worst[%s|%s]" % (pname, grp)), worst, "nldf:%s" % pname, det, floor=10 * fl)
                     if sc > 0:
@@ -833,6 +837,12 @@ def _run_sdmx(case, rec, rng):
                     n_rms, n_worst = _sdmx_names(key, res)
                     rec.check(n_rms, rms, br, mechanism=mech, detail=det)
                     rec.check(n_worst, worst, bw, mechanism=mech, detail=det)
+                    if alt is not None:
+                        # regression guard beside the known finding: what the code does compute (H^1d + (j-4) H^1) must stay
+                        # reproduced at the truncation level, so that a further change of the H^1d rows is still reported
+                        a_rms, a_worst, _ = _stats(feats[res][k], alt)
+                        rec.check(n_rms.replace("sdmx_rms", "sdmx_rms_as_coded"), a_rms, br, mechanism="sdmx[%s]:value-as-coded" % label, detail=det)
+                        rec.check(n_worst.replace("sdmx_worst", "sdmx_worst_as_coded"), a_worst, bw, mechanism="sdmx[%s]:value-as-coded" % label, detail=det)
                 if alt is not None:
                     sample.setdefault("H1d_alternative_reading_rms", {})[label] = _stats(feats["default"][k], alt)[0]
                 floor = max(10 * s_rms, 1e-4)
